@@ -86,12 +86,78 @@ pub fn judge_episodes(w: &World, caps: &dyn Fn(usize) -> usize, gran: i64, stric
     Ok((eps, ev, mv, sp))
 }
 
+/// Concurrent mode: whatever the interleaving (peers evicting the same
+/// entries, an adversary deleting files between a pass's listing and its
+/// unlinks), a maintenance pass must try to delete exactly as many files as
+/// ITS OWN listing exceeds the capacity by -- no fewer because a victim had
+/// already vanished, no more because an entry could not be stat'ed.
+fn concurrent_ride_along(tape: &mut Tape, ctx: &RunCtx) -> RunOut {
+    use crate::conc::*;
+    let cfg = ConcCfg {
+        fronts: vec![0, 1, 2],
+        capacities: vec![0, 1, 2, 3],
+        max_parts: 3,
+        max_ops: 4,
+        max_keys: 3,
+        ops: vec!["set", "put", "put", "set", "get", "touch", "ensure"],
+        adversary: true,
+        stale_mode: true,
+        freeze: false,
+        crash: false,
+        fire: vec![DrawPolicy::Const(1)],
+        allow_shared_handle: true,
+        missing_dirs: false,
+        preexisting: true,
+        clock_small: true,
+        sampled_faults: false,
+        debris: true,
+    };
+    let run = run_conc(tape, &cfg, ctx.detail);
+    let mut out = RunOut::default();
+    out.sig = run.sig;
+    out.steps = run.steps;
+    out.sim_ns = run.sim_ns;
+    out.count("concurrent_runs", 1);
+    let mut v: Option<Violation> = None;
+    let mut raced = 0;
+    {
+        let inv = run.w.inv.lock().unwrap();
+        for ep in inv.episodes.iter() {
+            let d = &run.w.dirs[ep.dir_idx];
+            let cap = match d.kind {
+                DirKind::Plain => d.capacity,
+                DirKind::Sharded(n) => crate::hist::shard_capacity(d.capacity, n),
+            };
+            let need = ep.listed.saturating_sub(cap);
+            if ep.raced {
+                raced += 1;
+            }
+            // a pass cut short by the end of the run (killed/frozen) is not judged
+            let finished = run.results.iter().any(|r| r.op_id == ep.op && !r.crashed);
+            if finished && ep.unlink_attempts != need && v.is_none() {
+                v = Some(Violation::new("victim-count", format!("maintenance of {} listed {} files for a capacity of {} and tried to delete {} (exactly {} are needed){}", ep.dir, ep.listed, cap, ep.unlink_attempts, need, if ep.raced { "; some entry vanished under the pass" } else { "" })));
+            }
+        }
+    }
+    out.count("episodes", run.w.inv.lock().unwrap().episodes.len() as u64);
+    out.count("probe:entry_vanished_under_a_pass", raced);
+    out.nontrivial = raced > 0;
+    if let Some(mut v) = v {
+        v.detail = describe(&run, 200);
+        out.violation = Some(v);
+    }
+    if ctx.detail {
+        out.sample = Some(J::obj().set("mode", "concurrent ride-along").set("scenario", run.desc.clone()));
+    }
+    out
+}
+
 impl Check for C07 {
     fn id(&self) -> &'static str {
         "C07"
     }
     fn rule(&self) -> String {
-        "seeded directory populations (0..12 files, 3-6 distinct ranks so ties abound, random read marks incl. atime==mtime, stray subdirectories, seeded readdir order/batching, 5 timestamp granularities) x capacity 0..n+1 x 7 maintenance entry points (prune, plain set/put, stacked set/put, sharded set/put incl. the random other shard); one run in 16 is a random operation history (15-70 ops on plain/sharded/stacked handles of 1-2 processes) whose every maintenance episode is judged the same way; the oracle is the classical clock queue up to tie order, applied to every maintenance episode cut out of the call trace plus a before/after tree diff. Non-trivial = the directory was over capacity; distinct = hash of (entry point, n, capacity, rank pattern, mark pattern, granularity)".to_string()
+        "seeded directory populations (0..12 files, 3-6 distinct ranks so ties abound, random read marks incl. atime==mtime, stray subdirectories, seeded readdir order/batching, 5 timestamp granularities) x capacity 0..n+1 x 7 maintenance entry points (prune, plain set/put, stacked set/put, sharded set/put incl. the random other shard); one run in 64 is a concurrent run (2-3 participants, capacity 0-3, an adversary deleting files, stale crash debris) in which every maintenance pass must attempt exactly (its own listing - capacity) deletions whatever vanishes under it; one run in 16 is a random operation history (15-70 ops on plain/sharded/stacked handles of 1-2 processes) whose every maintenance episode is judged the same way; the oracle is the classical clock queue up to tie order, applied to every maintenance episode cut out of the call trace plus a before/after tree diff. Non-trivial = the directory was over capacity; distinct = hash of (entry point, n, capacity, rank pattern, mark pattern, granularity)".to_string()
     }
     fn runs(&self, tier: Tier) -> u64 {
         match tier {
@@ -100,6 +166,9 @@ impl Check for C07 {
         }
     }
     fn run(&self, tape: &mut Tape, ctx: &RunCtx) -> RunOut {
+        if tape.draw(64) == 63 {
+            return concurrent_ride_along(tape, ctx);
+        }
         if tape.draw(16) == 15 {
             // history mode: every maintenance episode of a random history
             let hp = crate::hist::HistParams { max_dirs: 2, allow_sharded: true, allow_stack: true, allow_readonly_handles: false, max_procs: 2, min_ops: 15, max_ops: 70, no_eviction: false, readonly_roots: 0, op_weights: crate::hist::OpWeights { get: 2, get_noread: 1, touch: 2, set: 4, put: 4, ensure: 1, gou: 1 }, final_prune: true };
